@@ -511,6 +511,9 @@ class C12Prop(DecodeProp):
                 if m[1] <= L:
                     ops.append("F2 %s %s %s 0" % ("BTE"[L], core.hx(v), m[0]))
             ops.append("F2 %s %s %s %d" % ("BTE"[L], core.hx(v), rng.choice([m[0] for m in vec.V2 if m[1] <= L]), rng.choice([-1, 7, 99])))
+        # the same overwrites on objects that have already answered every query once (a remembered score or severity must not survive
+        # the field it was computed from)
+        ops += ["G" + o[1:] for o in ops if o.startswith(("F3 ", "F2 "))]
         big = 200000 if tier == "quick" else 4000000
         for ver, head, units in (("3", "CVSS:3.1", ["/", ":", "/AV:N", "/A:", "/:", "AV:N", "\x00"]), ("2", "", ["/", ":", "AV:N/", "A:", "/:", "\xff"])):
             for u in units:
@@ -526,7 +529,7 @@ class C12Prop(DecodeProp):
         viol = 0
         for op, g, m in zip(ops, go, mo):
             f = op.split(" ")
-            if f[0] in ("F3", "F2"):
+            if f[0] in ("F3", "F2", "G3", "G2"):
                 # objects with one field overwritten: compared on what C12 states (which levels report an error, and
                 # score +0 there), not on the scores of the levels that stay valid
                 differs = (runner.validity_pattern(core.parse_kv(g)) != runner.validity_pattern(core.parse_kv(m))
@@ -554,15 +557,15 @@ class C12Prop(DecodeProp):
                     msgs.append("GetError() is nil on a %s receiver" % f[2])
                 if d.get("enc", "").endswith("|-"):
                     msgs.append("Encode() reports no error on a %s receiver" % f[2])
-            elif f[0] in ("F3", "F2") and f[4] == "0" and "f" in d:
+            elif f[0] in ("F3", "F2", "G3", "G2") and f[4] == "0" and "f" in d:
                 v = judge.V()
-                if f[0] == "F3":
+                if f[0] in ("F3", "G3"):
                     judge.judge_state_v3(f, d, v)
                 else:
                     judge.judge_state_v2(f, d, v)
                 msgs.extend(v.by.get("C12", []))
                 # the reset field is of the queried level: the object must be invalid at its own level
-                if f[0] == "F3" and d.get("ge", "").split(",")[-1] == "-":
+                if f[0] in ("F3", "G3") and d.get("ge", "").split(",")[-1] == "-":
                     msgs.append("object with %s reset to its unknown value passes GetError()" % f[3])
             elif f[0] == "BIG":
                 if d.get("r") not in ("0", "1"):
@@ -1608,6 +1611,8 @@ class ExportProp(SimpleProp):
                 t = t[:target + rng.below(3)]
             elif rng.chance(1, 8) and seen_t:
                 t = rng.choice(seen_t)          # the same template text again (same or another report, mode, level)
+            if rng.chance(1, 12):
+                t = "\ufeff" + t             # a byte-order mark in front: part of the template text, through a reader as through a string
             if len(t) <= 200:
                 seen_t.append(t)
             L = "BTE"[rng.below(3)]
@@ -1619,7 +1624,9 @@ class ExportProp(SimpleProp):
                 if rng.chance(1, 3) and t:
                     cut = [k for k in range(len(t) + 1) if t[:k].count("{{") == t[:k].count("}}")]
                     mode = "fail:%d" % rng.choice(cut)
-                mode += ":" + rng.choice(["plain", "wrapeof", "patheof", "unexpected", "closed"])
+                mode += ":" + rng.choice(["plain", "wrapeof", "patheof", "unexpected", "closed", "once", "once"])
+                if mode.endswith(":once") and rng.chance(1, 2):
+                    mode = "fail:%d:once" % rng.below(4)         # a transient failure within the first bytes
             ops.append("X3 %s %s %s %s %s" % (L, rng.choice(["en", "ja"]), core.hx(rng.choice(vecs)), mode, core.hx(t)))
         return ops
 
